@@ -215,7 +215,27 @@ func (e *Env) Drain() error {
 	if n < 1 {
 		n = 1
 	}
+	t0 := time.Now()
 	for iter := 0; iter < 200; iter++ {
+		// do not push barrier jobs on top of jobs that are still moving: the deferred list is
+		// last-in-first-out and barrier jobs would overtake and starve them
+		for {
+			st := pool.VerifState()
+			if st.Deferred == 0 && !st.FlusherActive && st.ChanLen == 0 {
+				break
+			}
+			if st.Deferred > 0 && !st.FlusherActive {
+				// possibly the stuck state; give a deferred Send in progress a moment, then let the barrier decide
+				time.Sleep(2 * time.Millisecond)
+				if st2 := pool.VerifState(); st2.Deferred > 0 && !st2.FlusherActive {
+					break
+				}
+			}
+			if time.Since(t0) > 60*time.Second {
+				return errors.New("drain barrier: pool still busy after 60 s")
+			}
+			time.Sleep(200 * time.Microsecond)
+		}
 		var started, finished sync.WaitGroup
 		started.Add(n)
 		finished.Add(n)
@@ -239,7 +259,13 @@ func (e *Env) Drain() error {
 			close(release)
 			return ErrDrainStuck
 		}
+		// all workers are held by barrier jobs: the only thing that can still move is a flusher
+		// that is about to find the list empty (possibly the one that delivered the barrier jobs)
 		st := pool.VerifState()
+		for w := 0; w < 200 && st.FlusherActive && st.Deferred == 0 && st.ChanLen == 0; w++ {
+			time.Sleep(100 * time.Microsecond)
+			st = pool.VerifState()
+		}
 		close(release)
 		finished.Wait()
 		if st.Deferred == 0 && !st.FlusherActive && st.ChanLen == 0 {
